@@ -34,6 +34,9 @@ type engineImpl struct {
 	dbf, jf, wf, sf *os.File
 	client          *fakeClient
 
+	bg        *bgOp  // Export / snapshot running in a second goroutine
+	bgResult  string // result of a background op that finished while an application op ran
+	hooked    *litefs.DB
 	exitSnap  string           // copy of the data directory taken when Store.Exit was called
 	held      *litefs.GuardSet // internal write lock held by the `whold` op
 	abandoned []abandonedStore // stores of "dead" processes (crash restarts)
@@ -95,6 +98,17 @@ func (c *fakeClient) Stream(ctx context.Context, primaryURL string, nodeID uint6
 }
 
 func (m *engineImpl) Close() {
+	if m.bg != nil {
+		m.bgResume()
+		if m.bg != nil {
+			select {
+			case <-m.bg.done:
+			case <-time.After(5 * time.Second):
+			}
+			m.bg = nil
+		}
+		bgCur.Store(nil)
+	}
 	m.crashing = false
 	crashMu.Lock()
 	if crashActive == m {
@@ -266,6 +280,14 @@ func bytesOf(s string) ([]byte, bool) {
 func (m *engineImpl) need() bool { return m.store != nil && m.db != nil && m.exit == 0 }
 
 func (m *engineImpl) Do(line string) string {
+	obs := m.do1(line)
+	if !strings.HasPrefix(line, "bg-") {
+		obs = m.bgAfterOp(obs)
+	}
+	return obs
+}
+
+func (m *engineImpl) do1(line string) string {
 	f := strings.Fields(line)
 	if len(f) == 0 {
 		return "bad-op"
@@ -725,6 +747,33 @@ func (m *engineImpl) Do(line string) string {
 			parts = append(parts, k+"="+l[k])
 		}
 		return strings.Join(parts, " ")
+	case "bg-start": // bg-start export|snapshot [LOCK:prev:next]
+		if len(f) < 2 || (f[1] != "export" && f[1] != "snapshot") {
+			return "bad-op"
+		}
+		m.installLockHook()
+		pause := ""
+		if len(f) == 3 {
+			pause = f[2]
+		}
+		m.bgResult = ""
+		return m.bgStart(f[1], pause)
+	case "bg-resume": // let a paused background op continue; report where it ends up
+		return m.bgResume()
+	case "bg-result": // result of a background op that completed while application operations ran
+		if m.bg != nil {
+			st := m.bgSettle()
+			if strings.HasPrefix(st, "finished") {
+				return st
+			}
+			return st
+		}
+		if m.bgResult != "" {
+			r := m.bgResult
+			m.bgResult = ""
+			return r
+		}
+		return "none"
 	case "demote": // the node loses its lease (manual demotion); it does not try to become primary again
 		if m.store == nil {
 			return "bad-op"
@@ -872,6 +921,9 @@ func imageDigest(img []byte, ps int) string {
 		return "0:-"
 	}
 	n := len(img) / ps
+	if n == 0 {
+		return "0:-"
+	}
 	lock := uint32(0x40000000/ps) + 1
 	var acc []byte
 	for i := 0; i < n; i++ {
